@@ -125,10 +125,11 @@ def exec_lockstep(ctx, res, rexe):
         return dict(exec_pool_logs=0, exec_pool_steps=0, exec_pool_divergences=0)
     for r in res:
         kind, tgt, c = r['case']['tag']
-        if kind != 'pool' or not str(tgt).startswith('pool node ') or build.CONFIGS[c]['DBL']:
+        small = str(tgt).startswith('pool small ')
+        if kind != 'pool' or not (small or (str(tgt).startswith('pool node ') and not build.CONFIGS[c]['DBL'])):
             continue
         n += 1
-        out = subprocess.run([rexe, 'poolexec', '0'], input=r['log'], stdout=subprocess.PIPE, text=True).stdout
+        out = subprocess.run([rexe, 'poolexec', 'small' if small else '0'], input=r['log'], stdout=subprocess.PIPE, text=True).stdout
         for ln in out.split('\n'):
             if ln.startswith('SUMMARY'):
                 kv = dict(x.split('=') for x in ln.split()[1:])
